@@ -1,10 +1,10 @@
 package main
 
 import (
-	"go/types"
 	"bufio"
 	"encoding/json"
 	"fmt"
+	"go/types"
 	"os"
 	"path/filepath"
 	"sort"
@@ -88,26 +88,26 @@ func (f finding) matches(prop, obl string) bool {
 
 // checkCtx is what a property-specific generator (sweep, IR pass) can add to a run.
 type checkCtx struct {
-	e        *Engine
-	prop     string
-	tier     string
-	jobs     []job
-	gens     []*gen
-	notes    []string
-	assumed  map[string]bool
-	fatal    []string // problems that make the run unusable (exit 2)
-	funcs    map[string]bool
-	extraEv  map[string]interface{}
-	bounded  []string
-	direct   []*directResult // obligations decided by the generator itself (finite syntactic decisions)
-	undecidedOK map[string]string // frontier: obligation name -> reason (sweeps only)
-	provedLedger map[string]bool
-	useLedger bool
-	strictNew bool // an undischarged obligation that is in neither ledger is a violation (frame sweep)
+	e              *Engine
+	prop           string
+	tier           string
+	jobs           []job
+	gens           []*gen
+	notes          []string
+	assumed        map[string]bool
+	fatal          []string // problems that make the run unusable (exit 2)
+	funcs          map[string]bool
+	extraEv        map[string]interface{}
+	bounded        []string
+	direct         []*directResult   // obligations decided by the generator itself (finite syntactic decisions)
+	undecidedOK    map[string]string // frontier: obligation name -> reason (sweeps only)
+	provedLedger   map[string]bool
+	useLedger      bool
+	strictNew      bool            // an undischarged obligation that is in neither ledger is a violation (frame sweep)
 	frontierLedger map[string]bool // obligations known to be undecided on the unchanged tree
 	frontierFuncs  map[string]bool // functions that have at least one such obligation
 	provedFuncs    map[string]bool // functions with at least one proved obligation in the ledger
-	generated map[string]bool
+	generated      map[string]bool
 }
 
 // newRefutedInCleanFunction: the obligation is in neither ledger, the solver REFUTED it (a model exists under everything
@@ -344,6 +344,12 @@ func runCheck(repo, prop, tier string, rest []string) int {
 		solverTime += o.TimeS
 		if f := os.Getenv("VERIF_LIST"); f != "" && strings.Contains(o.Name, f) {
 			fmt.Printf("LIST %s %s %.2fs\n", o.Result, o.Name, o.TimeS)
+		}
+		if f := os.Getenv("VERIF_DUMP"); f != "" && strings.Contains(o.Name, f) {
+			// debugging aid: the script and the solver's answer of matching obligations (never used by a registered command)
+			dn := filepath.Join(os.TempDir(), "govc-dump")
+			os.MkdirAll(dn, 0o755)
+			os.WriteFile(filepath.Join(dn, fmt.Sprintf("%d.smt2", len(o.Name)*1000+int(o.TimeS*100)%1000)), []byte("; "+o.Name+"\n; "+o.Result+"\n"+o.Script+"\n; MODEL\n"+o.Model), 0o644)
 		}
 		if os.Getenv("VERIF_SLOW") != "" && o.TimeS > 1.0 {
 			fmt.Printf("SLOW %.2fs %s %s %s\n", o.TimeS, o.Result, o.Solver, o.Name)
